@@ -30,6 +30,7 @@ META = {
 
 
 META['explanation'] += ' Rounds 4-5: ' + 'R12 ISA05-08 / GS02-03 of both acknowledgements are the received receiver/sender, swapped (positions derived from the construction). R13 visit_seg of both visitors decided by constant propagation over code sets x element errors: one AK3/IK3 per standard code, at least one when the segment has element errors.'
+META['explanation'] += ' After round 6: R15 group code / failed-set count / error counts and R16 AK901-04 of both visitors decided by constant propagation.'
 META['technique'] = META.get('technique', 'static analysis: AST/CFG rules over /repo source + shipped XML data') + '; conditional constant propagation over the CFG on finite, complete input domains (DESIGN.md 10.4.1)'
 
 
@@ -566,6 +567,118 @@ def r11_trailer_errors_count(ctx):
                  % (lvl, cname, 'SE' if lvl == 'st' else 'GE', 'set' if lvl == 'st' else 'group'))
 
 
+def r16_group_totals(ctx):
+    """the AK9 both visitors write carries, in this order, the group's code, the number of sets the GE declared, the number
+    received, and the number accepted = received minus the sets not accepted (never below 0): visit_gs_post decided by
+    constant propagation over codes x declared x received x failed, the positions taken from the construction (append
+    order after the literal 'AK9', or the designator of set)."""
+    from ..absint import traces, NotClosedTest
+    import itertools as _it
+    for mod, cname in (('error_997', 'error_997_visitor'), ('error_999', 'error_999_visitor')):
+        fn = ctx.func(mod, cname + '.visit_gs_post')
+        g = ctx.cfg(fn)
+        bad = []
+        runs = 0
+        for code, orig, recv, failed in _it.product(('A', 'R', 'E', None), (3, 5, None), (3, 4, None), (0, 1, 4, 9)):
+            gs = A.Model('err_gs', ack_code=code, st_count_orig=orig, st_count_recv=recv, count_failed_st=lambda failed=failed: failed,
+                         errors=(), elements=(), gs_control_num='17', fic='HC')
+
+            def key(c):
+                r, m = A.call_target(c)
+                if m in ('append', 'set') and r and '.' not in r:
+                    return 'seg_data.' + m
+                if m == 'Segment' and c.args and A.is_str(c.args[0]):
+                    return 'new'
+                if r in ('self', 'self.wr') and m in ('_write', 'Write'):
+                    return 'write'
+                return None
+            try:
+                res = traces(g, {'err_gs': gs}, key, funcs={'self.__get_gs_errors': lambda *_a: ('5',), 'self._error_997_visitor__get_gs_errors': lambda *_a: ('5',)})
+            except NotClosedTest as e:
+                raise AnalysisError('%s.visit_gs_post cannot be decided: %s' % (cname, e))
+            runs += 1
+            want = [code or 'R', str(orig or 0), str(recv or 0), str(max((recv or 0) - failed, 0))]
+            for tr, _e in res:
+                # first segment built in the hook = AK9: collect its first four positions
+                pos = {}
+                nxt = 1
+                on = False
+                for k_, vals in tr:
+                    if k_ == 'new':
+                        if on:
+                            break
+                        on = vals[:1] == ('AK9',)
+                        continue
+                    if not on:
+                        continue
+                    if k_ == 'write':
+                        break
+                    if k_ == 'seg_data.append' and vals:
+                        pos.setdefault(nxt, vals[0])
+                        nxt += 1
+                    elif k_ == 'seg_data.set' and len(vals) == 2 and isinstance(vals[0], str) and vals[0][-2:].isdigit():
+                        pos[int(vals[0][-2:])] = vals[1]
+                        nxt = max(nxt, int(vals[0][-2:]) + 1)
+                got = [pos.get(i) for i in (1, 2, 3, 4)]
+                if got != want and len(bad) < 3:
+                    bad.append('group code %r, %r sets declared, %r received, %r not accepted: AK901-04 = %s, expected %s' % (code, orig, recv, failed, got, want))
+        yield Ob('%s:%s.visit_gs_post AK9 = code, declared, received, accepted' % (mod, cname), not bad, ctx.floc(fn), '' if not bad else bad[0],
+                 note='%d combinations' % runs)
+
+
+def r15_accept_iff_no_error(ctx):
+    """a group is marked accepted exactly when nothing below it, none of its own elements and none of its own errors was
+    reported; the failed-set count is the number of sets not accepted; the error counts of a set / segment are positive
+    exactly when something was reported on it.  Decided by constant propagation on nodes with every combination of
+    (children with/without errors, elements with/without errors, own errors)."""
+    from ..absint import run_function, helper_oracles, NotClosedTest
+    hfuncs = helper_oracles(ctx, 'error_handler')
+    import itertools as _it
+
+    def kid(n, code='A'):
+        return A.Model('kid', get_error_count=lambda n=n: n, err_count=lambda n=n: n, ack_code=code)
+
+    def run(cname, meth, env):
+        fn = ctx.func('error_handler', '%s.%s' % (cname, meth))
+        try:
+            return fn, run_function(ctx.cfg(fn), fn, [None], hfuncs, env=env)
+        except (NotClosedTest, A.NotClosed) as e:
+            raise AnalysisError('%s.%s cannot be decided: %s' % (cname, meth, e))
+    bad = []
+    for kids, eles, errs in _it.product(((), (0, 0), (0, 2), (1, 0)), ((), (0,), (3,)), (0, 1)):
+        env = {'self.children': tuple(kid(n) for n in kids), 'self.elements': tuple(kid(n) for n in eles), 'self.errors': tuple(('c', 'm') for _ in range(errs))}
+        fn, got = run('err_gs', '_get_ack_code', env)
+        want = 'A' if (sum(kids) == 0 and sum(eles) == 0 and errs == 0) else 'R'
+        if got != want:
+            bad.append('children %s, element errors %s, %d own error(s): code %r, expected %r' % (list(kids), list(eles), errs, got, want))
+    yield Ob('error_handler:err_gs._get_ack_code accepts exactly when nothing was reported in or on the group', not bad,
+             ctx.floc(ctx.func('error_handler', 'err_gs._get_ack_code')), '' if not bad else bad[0])
+    bad = []
+    for codes in ((), ('A',), ('R',), ('A', 'R', 'E', 'R'), ('E',), ('M', 'W', 'X', 'A')):
+        env = {'self.children': tuple(kid(0, c) for c in codes)}
+        fn, got = run('err_gs', 'count_failed_st', env)
+        want = sum(1 for c in codes if c not in ('A', 'E'))
+        if got != want:
+            bad.append('sets with codes %s: %r failed, expected %r' % (list(codes), got, want))
+    yield Ob('error_handler:err_gs.count_failed_st counts the sets that are not accepted', not bad, ctx.floc(fn), '' if not bad else bad[0])
+    for cname in ('err_st', 'err_seg'):
+        bad = []
+        for child, eles, errs in _it.product((0, 2), ((), (0,), (3, 1)), (0, 2)):
+            env = {'self.elements': tuple(kid(n) for n in eles), 'self.errors': tuple(('c', 'm') for _ in range(errs)),
+                   'self.children': tuple(kid(child) for _ in range(2))}
+            funcs_env = dict(env)
+            fnc = ctx.func('error_handler', cname + '.err_count')
+            try:
+                got = run_function(ctx.cfg(fnc), fnc, [None], dict(hfuncs, **{'self.child_err_count': lambda child=child, eles=eles, cname=cname:
+                                                              (child if cname == 'err_st' else sum(1 for n in eles if n > 0))}), env=funcs_env)
+            except (NotClosedTest, A.NotClosed) as e:
+                raise AnalysisError('%s.err_count cannot be decided: %s' % (cname, e))
+            reported = errs > 0 or (child > 0 if cname == 'err_st' else any(n > 0 for n in eles)) or (cname == 'err_st' and sum(eles) > 0)
+            if bool(got) != reported or (got is not None and got < 0):
+                bad.append('%d own error(s), element errors %s, %s: count %r' % (errs, list(eles), 'segments with errors' if child else 'no segment errors', got))
+        yield Ob('error_handler:%s.err_count is positive exactly when something was reported' % cname, not bad, ctx.floc(fnc), '' if not bad else bad[0])
+
+
 def r14_error_totals(ctx):
     """the verdict rests on err_handler.get_error_count(): structural errors (counts, missing or unknown segments, repeat
     limits) do not touch the `valid` flag, only this total.  Each get_error_count of the error tree is decided by
@@ -694,6 +807,8 @@ RULES = [
     Rule('C05.R8', 'shared with C04.R1: the received-set count the acknowledgement reports is the reader\'s, counted unconditionally', r8_shared_reader_counts, floor=37),
     Rule('C05.R9', 'reader errors are handed to the error tree before the loop they concern is closed', r9_reader_errors_before_close, floor=3),
     Rule('C05.R10', 'AK401/IK401 carry element, component and repetition position each in its own place', r10_element_position, floor=4),
+    Rule('C05.R16', 'AK9 totals of both visitors decided by constant propagation (code, declared, received, accepted)', r16_group_totals, floor=2),
+    Rule('C05.R15', 'accept code / failed-set count / error counts decided by constant propagation over all evidence combinations', r15_accept_iff_no_error, floor=3),
     Rule('C05.R14', 'get_error_count of every error-tree level is the sum over children, elements and own errors (constant propagation)', r14_error_totals, floor=3),
     Rule('C05.R13', 'visit_seg: an AK3/IK3 for every standard segment code and for every segment with element errors (constant propagation)', r13_segment_items, floor=2),
     Rule('C05.R12', 'ISA05-08 / GS02-03 of the acknowledgement are the received receiver and sender, swapped', r12_addressed_to_sender, floor=9),
